@@ -103,16 +103,41 @@ def judge(acc, case, prog, cfg, rng):
 
 
 def on_undecidable(acc, case, prog, cfg):
-    """The heuristic problem contains the optimum of the original one: it can never be infeasible."""
+    """The heuristic problem contains the optimum of the original one: it can never be infeasible.  A solver may still
+    REPORT it infeasible for numerical reasons (weights up to 1/eig_regularization), so the claim is decided on the data:
+    the solution of the first solve is plugged into the extra row 'objective >= optimum - tol' that was sent."""
+    import numpy as np
     from pv.monitors import is_optimal_status
     inner = case.rec["inner"]
-    if len(inner) >= 2 and is_optimal_status(str(inner[0]["status"])):
-        for k, x in enumerate(inner[1:], 1):
-            st = str(x["status"]).lower()
-            if st in ("infeasible", "prosta.prim_infeas"):
-                return [{"key": "heuristic_problem_infeasible", "grade": "violated",
-                         "what": "inner solve %d of %s is reported %s although the original problem was solved to optimality "
-                                 "(outcome %s)" % (k, cfg.get("dimred"), st, repr(case.outcome[1])[:80])}]
+    if not (len(inner) >= 2 and is_optimal_status(str(inner[0]["status"]))):
+        return []
+    bad = [k for k, x in enumerate(inner[1:], 1) if str(x["status"]).lower() in ("infeasible", "prosta.prim_infeas")]
+    if not bad:
+        return []
+    w = case.rec.get("wrapper")
+    G0, F0 = inner[0].get("G"), inner[0].get("F")
+    viol = None
+    try:
+        if type(w).__name__ == "CvxpyWrapper":
+            w.G.value = G0
+            w.F.value = F0
+            c = w._list_of_solver_constraints[-1]
+            viol = float(np.max(c.violation()))
+        elif type(w).__name__ == "MosekWrapper":
+            rows, cvec, C = w.task.dense()
+            r = rows[-1]
+            xx = np.zeros(w.task.numvar)
+            xx[:len(F0)] = F0[:w.task.numvar]
+            val = float(r["a"] @ xx) + sum(float(np.sum(Mx * G0)) for j, Mx in r["bar"].items() if j == 0)
+            viol = max(val - r["bu"], 0.0)
+    except Exception as e:
+        acc.observations.append("could not evaluate the heuristic row: %r" % (e,))
+    scale = 1.0 + abs(inner[0]["value"] or 0.0)
+    if viol is not None and viol > 1e-6 * scale:
+        return [{"key": "heuristic_problem_excludes_the_optimum", "grade": "violated",
+                 "what": "the extra row of the %s heuristic problem is violated by %.3e by the optimal solution of the original problem "
+                         "(inner solve %d reported %s; outcome %s)" % (cfg.get("dimred"), viol, bad[0], inner[bad[0]]["status"], repr(case.outcome[1])[:60])}]
+    acc.count("heuristic_reported_infeasible_by_solver(numerical, not judged)")
     return []
 
 
